@@ -840,6 +840,12 @@ class BatchCompletionCallBack(object):
 
         # Schedule the next batch of tasks.
         with self.parallel._lock:
+            # The call this batch belongs to can have ended (error in another
+            # batch, generator closed) and a new call can have started on the
+            # same instance since the outcome was registered: do not touch
+            # the counters and the input of that new call.
+            if self.parallel._call_id != self.parallel_call_id:
+                return
             self.parallel.n_completed_tasks += self.batch_size
             self.parallel.print_progress()
             if self.parallel._original_iterator is not None:
